@@ -15,6 +15,7 @@ import (
 	"google.golang.org/protobuf/encoding/protowire"
 	"google.golang.org/protobuf/internal/errors"
 	"google.golang.org/protobuf/internal/protolazy"
+	"google.golang.org/protobuf/internal/verifhook"
 	"google.golang.org/protobuf/reflect/protoreflect"
 	preg "google.golang.org/protobuf/reflect/protoregistry"
 	piface "google.golang.org/protobuf/runtime/protoiface"
@@ -64,7 +65,13 @@ func (mi *MessageInfo) lazyUnmarshal(p pointer, num protoreflect.FieldNumber) {
 		panic(fmt.Sprintf("lazyUnmarshal: field info for %v.%v", mi.Desc.FullName(), num))
 	}
 	lazy := *p.Apply(mi.lazyOffset).LazyInfoPtr()
+	if verifhook.Enabled {
+		verifhook.Ev(verifhook.LazyEnter, uintptr(num), 0, uintptr(p.p))
+	}
 	start, end, found, _, multipleEntries := lazy.FindFieldInProto(uint32(num))
+	if verifhook.Enabled {
+		verifhook.Ev(verifhook.LazyAfterFind, b2u(found), b2u(multipleEntries != nil), uintptr(p.p))
+	}
 	if !found && multipleEntries == nil {
 		panic(fmt.Sprintf("lazyUnmarshal: can't find field data for %v.%v", mi.Desc.FullName(), num))
 	}
@@ -78,7 +85,22 @@ func (mi *MessageInfo) lazyUnmarshal(p pointer, num protoreflect.FieldNumber) {
 	} else {
 		mi.unmarshalField(lazy.Buffer()[start:end], fp, f, lazy, lazy.UnmarshalFlags())
 	}
+	if verifhook.Enabled {
+		verifhook.Ev(verifhook.LazyBeforeCAS, uintptr(num), 0, uintptr(fp.Elem().p))
+	}
 	p.Apply(f.offset).AtomicSetPointerIfNil(fp.Elem())
+	if verifhook.Enabled {
+		// The published pointer never changes once set, so reading it back tells who won.
+		verifhook.Ev(verifhook.LazyAfterCAS, b2u(p.Apply(f.offset).AtomicGetPointer().p == fp.Elem().p), 0, uintptr(fp.Elem().p))
+	}
+}
+
+// b2u converts a bool for verifhook observations.
+func b2u(b bool) uintptr {
+	if b {
+		return 1
+	}
+	return 0
 }
 
 func (mi *MessageInfo) unmarshalField(b []byte, p pointer, f *coderFieldInfo, lazyInfo *protolazy.XXX_lazyUnmarshalInfo, flags piface.UnmarshalInputFlags) error {
